@@ -518,10 +518,16 @@ def m_copy_from_slice(I, st, call):
     s = as_slice(I, st, call.args[1], call.arg_tys[1])
     ok = d is not None and s is not None and st.entails_eq(d.len, s.len)
     I.note("call:copy_from_slice", call.site, ok, None if ok else "lengths not shown equal: %r vs %r" % (d.len if d else None, s.len if s else None))
+    tgt = None
     if isinstance(call.args[0], RefV):
-        v = I.read(st, call.args[0].place)
-        if isinstance(v, OpaqueV) and s is not None:
-            I.write(st, call.args[0].place, v.with_(copy_of=(s.base, s.off)))
+        tgt = call.args[0].place
+    elif isinstance(call.args[0], SliceV) and isinstance(call.args[0].base, tuple) and call.args[0].base[0] == "arr" \
+            and call.args[0].off == Aff.const(0):
+        tgt = call.args[0].base[1]
+    if tgt is not None:
+        v = I.read(st, tgt)
+        if isinstance(v, OpaqueV) and s is not None and (d is None or st.entails_eq(d.len, s.len)):
+            I.write(st, tgt, v.with_(copy_of=(s.base, s.off)))
     return [(st, UNIT)]
 
 
